@@ -96,6 +96,7 @@ type FnVC struct {
 	declSet      map[string]bool
 	heapSort     map[string]string
 	facts        []string
+	lemmaUsed    bool
 	factBlk      []int // block in which each fact was generated (-1: none)
 	ancCache     map[int]map[int]bool
 	qfacts       []string
